@@ -371,7 +371,7 @@ impl Version {
     fn with_merge_gc_part(&self, diff: Option<FragmentationMap>, new_blob_files: Vec<BlobFile>, blob_files_to_drop: &IdSet) -> (r: (Arc<FragmentationMap>, Arc<BlobFileList>))
         ensures
             // every blob file written by this compaction joins the version (whether or not any statistics changed) ...
-            forall|i: int| 0 <= i < new_blob_files@.len() && !blob_files_to_drop.view().contains((#[trigger] new_blob_files@[i]).0.id) ==> r.1.view().contains_key(new_blob_files@[i].0.id),   // @OBL C17.2, C08.5
+            forall|i: int| 0 <= i < new_blob_files@.len() && !blob_files_to_drop.view().contains((#[trigger] new_blob_files@[i]).0.id) ==> r.1.view().contains_key(new_blob_files@[i].0.id),   // @OBL C17.2, C08.5, C09.17
             // ... the rewritten / dead ones leave, every other blob file stays
             forall|id: u64| #[trigger] blob_files_to_drop.view().contains(id) ==> !r.1.view().contains_key(id),   // @OBL C09.4
             forall|id: u64| #[trigger] self.blob_files.view().contains_key(id) && !blob_files_to_drop.view().contains(id) ==> r.1.view().contains_key(id),   // @OBL C09.4
@@ -380,7 +380,7 @@ impl Version {
             forall|id: u64| #[trigger] r.1.view().contains_key(id) && merged(self.gc_stats.view(), match diff { Some(d) => d.view(), None => Map::empty() }).contains_key(id)
                 ==> r.0.view().contains_key(id) && r.0.view()[id] == merged(self.gc_stats.view(), match diff { Some(d) => d.view(), None => Map::empty() })[id],   // @OBL C09.4
     {
-//@ FROM src/version/mod.rs :: impl Version :: fn with_merge :: STMTS `>for ( level_idx , level ) in` .. `let gc_stats =` :: OBL C09.4, C17.2, C08.5
+//@ FROM src/version/mod.rs :: impl Version :: fn with_merge :: STMTS `>for ( level_idx , level ) in` .. `let gc_stats =` :: OBL C09.4, C17.2, C08.5, C09.17
 //@ SUBST `for & id in blob_files_to_drop` ==> `for id in blob_files_to_drop.iter()`
 //@ SUBST `copy . remove ( id ) ;` ==> `copy.remove(*id);`
         let has_diff = diff.is_some();
